@@ -9,3 +9,60 @@ From CiwV Require Import Sx Acc.C10.
 Theorem C10_sound : forall es raised stt, C10.acc es raised = Accept stt -> C10.P_C10 es raised.
 Proof. exact C10.C10_sound. Qed.
 Print Assumptions C10_sound.
+
+(* ---- T2: the engine model (coq/Engine, tied to /repo by the stepwise correspondence check K2) honours the samples ---- *)
+From Coq Require Import ZArith List.
+From CiwV.Engine Require Import State Engine Codec.
+From CiwV.Inv Require Import Frame Samples.
+Import ListNotations.
+Open Scope Z_scope.
+
+(* an arrival event creates exactly the sampled batch size of customers (a non-negative integer) and moves the stream
+   that fired on by exactly the sampled inter-arrival time; no other stream's date changes *)
+Theorem arrival_have_event_spec : forall cf s s', Engine.arrival_have_event cf s = Ok (tt, s') ->
+  exists b ia row old,
+    hd_error (d_batch (dr s)) = Some b /\ 0 <= b /\ a_created (arr s') = a_created (arr s) + b /\
+    hd_error (d_arr (dr s)) = Some ia /\
+    Engine.nthZ (a_dates (arr s)) (a_next_node (arr s) - 1) = Some row /\ Engine.nthZ row (a_next_cls (arr s)) = Some old /\
+    a_dates (arr s') = Engine.updZ (a_dates (arr s)) (a_next_node (arr s) - 1)
+                         (Engine.updZ row (a_next_cls (arr s)) (match old with Some o => Some (o + ia) | None => None end)).
+Proof. exact Samples.arrival_have_event_spec. Qed.
+Print Assumptions arrival_have_event_spec.
+
+(* a negative batch size is an error, not a silently corrupted run *)
+Theorem negative_batch_is_an_error : forall cf s b r, d_batch (dr s) = b :: r -> b < 0 -> Engine.arrival_have_event cf s = Err E_Batch.
+Proof. exact Samples.negative_batch_is_an_error. Qed.
+Print Assumptions negative_batch_is_an_error.
+
+(* service completions never touch the arrival node: arrival dates are the partial sums of the inter-arrival samples alone *)
+Theorem finish_service_keeps_arrivals : forall cf j s s', Engine.finish_service cf j s = Ok (tt, s') -> arr s' = arr s.
+Proof. exact Samples.finish_service_keeps_arrivals. Qed.
+Print Assumptions finish_service_keeps_arrivals.
+
+(* a service start stamps start = now, the sampled duration, end = start + duration, and the same end on the server *)
+Theorem start_service_spec : forall j i srv s s', Frame.Idx s -> Engine.start_service j i srv s = Ok (tt, s') ->
+  exists st x,
+    hd_error (d_svc (dr s)) = Some st /\
+    Engine.find_ind i (inds s') = Some x /\ i_sst x = Some (now s) /\ i_stime x = Some st /\ i_send x = Some (now s + st) /\
+    (forall sv, srv = Some sv -> i_server x = Some (sv_id sv) /\
+       exists nd nd', Engine.nthZ (nodes s) (j - 1) = Some nd /\ Engine.nthZ (nodes s') (j - 1) = Some nd' /\
+         (Engine.find_server (sv_id sv) (n_servers nd) <> None ->
+          exists sv', Engine.find_server (sv_id sv) (n_servers nd') = Some sv' /\ sv_cust sv' = Some i /\ sv_busy sv' = true /\ sv_next_end sv' = Some (now s + st))).
+Proof. exact Samples.start_service_spec. Qed.
+Print Assumptions start_service_spec.
+
+(* the stamps stay consistent over any number of events, for every configuration and every oracle *)
+Theorem run_many_svc : forall cf ds s s', Samples.SvcInv s -> Codec.run_many cf s ds = Ok s' -> Samples.SvcInv s'.
+Proof. exact Samples.run_many_svc. Qed.
+Print Assumptions run_many_svc.
+Theorem SvcInv_means : forall s x t0, Samples.SvcInv s -> In x (inds s) -> i_sst x = Some t0 ->
+  exists st, i_stime x = Some st /\ i_send x = Some (t0 + st).
+Proof. exact Samples.SvcInv_means. Qed.
+Print Assumptions SvcInv_means.
+
+(* and the record written at release shows exactly that duration *)
+Theorem record_shows_sampled_time : forall cf j x s s' t0, Samples.svc_okb x = true -> i_sst x = Some t0 ->
+  Engine.write_individual_record cf j x s = Ok (tt, s') ->
+  exists r pre, log s' = pre ++ [r] /\ r_id r = i_id x /\ r_type r = 0 /\ r_stime r = i_stime x /\ r_sst r = Some t0 /\ r_send r = i_send x.
+Proof. exact Samples.record_shows_sampled_time. Qed.
+Print Assumptions record_shows_sampled_time.
